@@ -102,6 +102,12 @@ def run(res, replay=None):
             {'kind': 'accumulate', 'dist': 'tree_height', 'k': 2, 'ts': [1.0, 2.0], 'rewards': HL, 'center': False},
             A('sfs.cov'), A('sfs.cov'), A('tree_height.demes.cov'), A(f"tree_height.demes['{p2[0]}'].var"), A('tree_height.demes.cov'),
             A('tree_height.var'), A('total_branch_length.var')]})
+    if not replay:
+        # designed: SFS matrices computed in worker processes with MORE work items ((n-1)^2 = 25) than the machine has CPUs, and
+        # the ordered parallel map on its own
+        s3 = {'n_items': [['a', 6]], 'model': {'kind': 'kingman'}, 'pop_sizes': {'a': {'0.0': 1.0, '0.5': 2.0}}}
+        cases.append({'spec': s3, 'cache': True, 'parallelize': True, 'parallel_map': True, 'ops': [
+            A('sfs.cov'), A('sfs.mean'), A('fsfs.cov'), A('sfs.corr'), A('sfs.var')]})
     outs = C.run_impl_parallel('histories.py', [{'cases': [c]} for c in cases], timeout=2400)
     bodies, keep = [], []
     for i, (c, o) in enumerate(zip(cases, outs)):
@@ -119,6 +125,9 @@ def run(res, replay=None):
                 res.violation('a statistic asked after other queries differs from the answer of a fresh object',
                               {'case': c, 'position': j, 'op': op, 'after_history': h, 'fresh': f})
                 break
+        if r.get('parallel_map') and not (r['parallel_map'][0] == r['parallel_map'][1] == r['parallel_map_expected']):
+            res.violation('the ordered parallel map returns other values (or another order) in worker processes than sequentially',
+                          {'case': c, 'workers': r['parallel_map'][0], 'sequential': r['parallel_map'][1]})
         if r['inv_violations']:
             res.violation('cache invariant broken on the real state space: ' + r['inv_violations'][0]['what'],
                           {'case': c, 'details': r['inv_violations'][:3]})
